@@ -30,6 +30,8 @@ structure M where
   eopts : Nat
   /-- contents of the object handed to `findEdgesInternal`, one entry per call -/
   trace : List Opts
+  /-- the values handed to `target.setMaxError`, one entry per (unconditional) call -/
+  tmax : List Lim := []
 deriving DecidableEq, Repr
 
 structure Frame where
@@ -89,6 +91,15 @@ def runEvs : Nat → List Ev → Frame → M → Option M
           match setField fr o f v with
           | none => none
           | some o' => runEvs fuel rest fr { m with heap := m.heap.set s o' }
+    | .tsetMaxError guards v =>
+      -- only an UNCONDITIONAL `e.target.setMaxError(opts.maxError)` (opts = the options parameter) has a
+      -- counterpart in the hand model (`Target.setMaxError` with the repair of D49); a guard stops the run
+      match guards, v, fr.param with
+      | [], .optsField .maxError, some p =>
+        match m.heap[p]? with
+        | none => none
+        | some o => runEvs fuel rest fr { m with tmax := m.tmax ++ [o.maxError] }
+      | _, _, _ => none
     | .call fn opts limit =>
       let param : Option (Option Nat) := match opts with
         | none => some none
@@ -124,7 +135,7 @@ def entry : QKind → Fn × Option Nat × Option Lim
   | .isConsGE l => (.IsConservativeDistanceGreaterOrEqual, none, some (.val l))
 
 def runCall (k : QKind) (o : Opts) : Option M :=
-  runEvs 64 (events (entry k).1) ⟨(entry k).2.1, (entry k).2.2, [], []⟩ ⟨[o], 0, []⟩
+  runEvs 64 (events (entry k).1) ⟨(entry k).2.1, (entry k).2.2, [], []⟩ ⟨[o], 0, [], []⟩
 
 /-! ### the obligations -/
 
@@ -148,7 +159,7 @@ theorem tie_eqCall (idx : Index) (q : EQ) (k : QKind) (thr : Nat) :
     simp only [Option.map, Option.some.injEq, Prod.mk.injEq] at h
     refine ⟨m, k.override q.opts, rfl, h.1, h.2.1, h.2.2, ?_⟩
     simp only [eqCall, Fixes.all, ↓reduceIte]
-    generalize findEdgesCore ⟨true, true, true, true⟩ idx q thr (k.override q.opts) k.report = r
+    generalize findEdgesCore ⟨true, true, true, true, true, true⟩ idx q thr (k.override q.opts) k.report = r
     cases r with
     | none => rfl
     | some v => obtain ⟨a, b, c⟩ := v; rfl
